@@ -32,7 +32,11 @@ DivS(x, y)   == SgnS(x) * SgnS(y) * (AbsS(x) \div AbsS(y))    \* C++ integer /: 
 ModS(x, y)   == x - y * DivS(x, y)                            \* C++ %: sign of the dividend
 MinS(x, y)   == IF y < x THEN y ELSE x                        \* std::min
 MaxS(x, y)   == IF x < y THEN y ELSE x                        \* std::max
-DivRoundUpS(x, y) == DivS(x + y - 1, y)                       \* rkmath.h divRoundUp: (a + b - 1) / b
+DivRoundUpS(x, y) == DivS(x + y - 1, y)                       \* rkmath.h divRoundUp for POSITIVE operands: the least q with q * y >= x
+                                                              \* (LawDivRoundUp).  rkmath.h has used (a + b - 1) / b and, for integers,
+                                                              \* a / b + (a % b > 0): they agree on positive operands and differ on the
+                                                              \* others, where no value is specified here - there divRoundUp(vec) is only
+                                                              \* required to be the lifting of the real scalar function (VecLiftValidate)
 MaddS(x, y, z)    == x * y + z                                \* rkmath.h madd - defined for float only: components of other element
                                                               \* types pass through float, so madd is decided only while x * y and
                                                               \* x * y + z are exactly representable floats (VecAlgebraGen: window "f")
